@@ -292,3 +292,33 @@ def f7(run, v, entry, exc):
     if entry is None or v["kind"] not in CONTENT_KINDS:
         return False
     return _sort_missing_cols_not_chain(entry.rel)
+
+
+def _buried_sorted_compound_with_empty_branch(rel):
+    """A Select over a chain with a sort and no slice that sits *under* another node (buried by a
+    calculation/selection over the compound), where one chain branch is statically empty."""
+    from lsst.daf.relation import BinaryOperationRelation, Chain
+    from lsst.daf.relation.sql import Select
+    from .oracles import all_nodes
+
+    for n in all_nodes(rel):
+        if n is rel:
+            continue
+        if isinstance(n, Select) and n.is_compound and n.has_sort and not n.has_slice:
+            ch = n.skip_to
+            if isinstance(ch, BinaryOperationRelation) and isinstance(ch.operation, Chain) and \
+                    (ch.lhs.max_rows == 0 or ch.rhs.max_rows == 0):
+                return True
+    return False
+
+
+@recogniser("F28")
+def f28(run, v, entry, exc):
+    """process() re-applies operations after pruning a statically empty chain branch; a sort that the SQL engine had
+    silently buried under a calculation/selection over the UNION then resurfaces next to a join/chain/materialization
+    and the order-loss error is raised at process() time instead of at construction."""
+    if entry is None or v.get("exc_type") != "RelationalAlgebraError":
+        return False
+    if "will not preserve row order" not in v.get("exc_msg", "") or "_processor.py" not in " ".join(v.get("exc_site", [])):
+        return False
+    return _buried_sorted_compound_with_empty_branch(entry.rel)
